@@ -6,6 +6,7 @@ package main
 
 import (
 	"bytes"
+	"encoding/hex"
 	"fmt"
 	"runtime"
 	"runtime/pprof"
@@ -22,6 +23,21 @@ import (
 	"seehuhn.de/go/sfnt/opentype/gtab"
 	"seehuhn.de/go/sfnt/opentype/gtab/builder"
 )
+
+func dslMustHex(s string) []byte {
+	b, err := hex.DecodeString(s)
+	if err != nil {
+		panic("bad hex " + s)
+	}
+	return b
+}
+
+func dslCanonPanic(s string) string {
+	if strings.HasPrefix(s, "panic:") {
+		return "panic"
+	}
+	return s
+}
 
 // ---------------------------------------------------------------- fonts
 
@@ -54,7 +70,7 @@ func dslFontOf(f Fields) *sfnt.Font {
 		names := make([]string, n)
 		for i, h := range strings.Split(f["names"], ",") {
 			if i < n {
-				names[i] = string(mustHex(h))
+				names[i] = string(dslMustHex(h))
 			}
 		}
 		o.Names = names
@@ -339,22 +355,22 @@ func builderGoroutines() int {
 func init() {
 	areas["dsl"] = areaDsl
 	ops["dsl.lex"] = func(f Fields) string {
-		return canonPanic(guard(func() string { return dslShowItems(builder.VerifLex(string(f.Hex("text")))) }))
+		return dslCanonPanic(guard(func() string { return dslShowItems(builder.VerifLex(string(f.Hex("text")))) }))
 	}
 	ops["dsl.parse"] = func(f Fields) string {
-		return canonPanic(guard(func() string {
+		return dslCanonPanic(guard(func() string {
 			return dslOutcome(builder.Parse(dslFontOf(f), string(f.Hex("text"))))
 		}))
 	}
 	ops["dsl.explain"] = func(f Fields) string {
-		return canonPanic(guard(func() string {
+		return dslCanonPanic(guard(func() string {
 			font := dslFontOf(f)
 			font.Gsub = &gtab.Info{LookupList: readLookups(f["lookups"])}
 			return hx([]byte(builder.ExplainGsub(font)))
 		}))
 	}
 	rt := func(f Fields) string {
-		return canonPanic(guard(func() string {
+		return dslCanonPanic(guard(func() string {
 			font := dslFontOf(f)
 			font.Gsub = &gtab.Info{LookupList: readLookups(f["lookups"])}
 			txt := builder.ExplainGsub(font)
@@ -365,7 +381,7 @@ func init() {
 	ops["dsl.roundtrip"] = rt // D: compared with the lookups themselves
 	ops["dsl.modelrt"] = rt   // V: compared with the model's parse∘explain
 	ops["dsl.flags"] = func(f Fields) string {
-		return canonPanic(guard(func() string {
+		return dslCanonPanic(guard(func() string {
 			font := dslFontOf(Fields{"n": "3", "names": "-", "cmap": ""})
 			fl := gtab.LookupFlags(f.Int("f"))
 			font.Gsub = &gtab.Info{LookupList: gtab.LookupList{{Meta: &gtab.LookupMetaInfo{LookupType: 1, LookupFlags: fl},
@@ -379,7 +395,7 @@ func init() {
 		}))
 	}
 	ops["dsl.goroutines"] = func(f Fields) string {
-		return canonPanic(guard(func() string {
+		return dslCanonPanic(guard(func() string {
 			old := runtime.GOMAXPROCS(f.Int("procs"))
 			defer runtime.GOMAXPROCS(old)
 			if b := builderGoroutines(); b != 0 {
@@ -501,14 +517,23 @@ func genCov(r *Rng, n int) []glyph.ID {
 	return out
 }
 
-// genLookup draws a lookup of type 1–4 inside the language's domain (one subtable — see the
-// known finding on the subtable separator —, non-empty right-hand sides where the parser
-// insists on them).
+// genLookup draws a lookup of type 1–4 inside the language's domain: one to three subtables
+// of that type, non-empty right-hand sides where the parser insists on them.
 func genLookup(c *Ctx, n int) *gtab.LookupTable {
 	r := c.Rng
 	t := r.Range(1, 4)
 	flags := gtab.LookupFlags(r.Intn(16))
 	l := &gtab.LookupTable{Meta: &gtab.LookupMetaInfo{LookupType: uint16(t), LookupFlags: flags}}
+	k := Pick(r, []int{1, 1, 1, 2, 2, 3})
+	c.Stat("rt.subtables", fmt.Sprint(k))
+	for ; k > 0; k-- {
+		l.Subtables = append(l.Subtables, genSubtable(c, n, t))
+	}
+	return l
+}
+
+func genSubtable(c *Ctx, n, t int) gtab.Subtable {
+	r := c.Rng
 	cov := genCov(r, n)
 	switch t {
 	case 1:
@@ -521,46 +546,43 @@ func genLookup(c *Ctx, n int) *gtab.LookupTable {
 			maxG := int(cov[len(cov)-1])
 			minG := int(cov[0])
 			d := r.Range(-minG, n-1-maxG)
-			l.Subtables = append(l.Subtables, &gtab.Gsub1_1{Cov: set, Delta: glyph.ID(d)})
 			c.Stat("rt.form", "gsub1.1")
-		} else {
-			sub := make([]glyph.ID, len(cov))
-			constant := r.Chance(1, 4)
-			for i := range sub {
-				sub[i] = glyph.ID(r.Intn(n))
-				if constant {
-					sub[i] = cov[i]
-				}
-			}
-			l.Subtables = append(l.Subtables, &gtab.Gsub1_2{Cov: covOf(cov), SubstituteGlyphIDs: sub})
-			c.Stat("rt.form", "gsub1.2")
+			return &gtab.Gsub1_1{Cov: set, Delta: glyph.ID(d)}
 		}
+		sub := make([]glyph.ID, len(cov))
+		constant := r.Chance(1, 4)
+		for i := range sub {
+			sub[i] = glyph.ID(r.Intn(n))
+			if constant {
+				sub[i] = cov[i]
+			}
+		}
+		c.Stat("rt.form", "gsub1.2")
+		return &gtab.Gsub1_2{Cov: covOf(cov), SubstituteGlyphIDs: sub}
 	case 2:
 		repl := make([][]glyph.ID, len(cov))
 		for i := range repl {
 			repl[i] = genGids(r, n, 1, 4)
 		}
-		l.Subtables = append(l.Subtables, &gtab.Gsub2_1{Cov: covOf(cov), Repl: repl})
 		c.Stat("rt.form", "gsub2.1")
+		return &gtab.Gsub2_1{Cov: covOf(cov), Repl: repl}
 	case 3:
 		alt := make([][]glyph.ID, len(cov))
 		for i := range alt {
 			alt[i] = genGids(r, n, 0, 4)
 		}
-		l.Subtables = append(l.Subtables, &gtab.Gsub3_1{Cov: covOf(cov), Alternates: alt})
 		c.Stat("rt.form", "gsub3.1")
-	case 4:
-		repl := make([][]gtab.Ligature, len(cov))
-		for i := range repl {
-			k := r.Range(1, 3)
-			for j := 0; j < k; j++ {
-				repl[i] = append(repl[i], gtab.Ligature{In: genGids(r, n, 0, 3), Out: glyph.ID(r.Intn(n))})
-			}
-		}
-		l.Subtables = append(l.Subtables, &gtab.Gsub4_1{Cov: covOf(cov), Repl: repl})
-		c.Stat("rt.form", "gsub4.1")
+		return &gtab.Gsub3_1{Cov: covOf(cov), Alternates: alt}
 	}
-	return l
+	repl := make([][]gtab.Ligature, len(cov))
+	for i := range repl {
+		k := r.Range(1, 3)
+		for j := 0; j < k; j++ {
+			repl[i] = append(repl[i], gtab.Ligature{In: genGids(r, n, 0, 3), Out: glyph.ID(r.Intn(n))})
+		}
+	}
+	c.Stat("rt.form", "gsub4.1")
+	return &gtab.Gsub4_1{Cov: covOf(cov), Repl: repl}
 }
 
 // inDomain says whether the font is one the notation can name every glyph of: non-empty names
@@ -587,7 +609,7 @@ var dslSnippets = []string{
 	"GSUB1: A->B, M->N", "GSUB1: A-C -> B-D, M->N, N->O", "GSUB1: -marks A->B", "GSUB1: -marks -ligs -base -rtl\n A -> B",
 	"GSUB2: A -> \"AA\", B -> \"AA\", C -> \"ABAAC\"", "GSUB3: A -> [ \"BCD\" ]", "GSUB3: A -> [B C], M -> [B C]",
 	"GSUB4: -marks A A A -> B, A -> D, A A -> C", "GSUB4: \"AB\" -> \"X\"", "GSUB1: 1 -> 2, 3 - 5 -> 4 - 6",
-	"GSUB1: \"A\\\"B\" -> \"CD\"", "GSUB2: A -> B C # comment\nGSUB1: A -> B;", "GSUB1:\n\tA -> B,\n\tC -> D\n",
+	"GSUB1: \"A\\\"B\" -> \"CD\"", "GSUB1: A -> B ||\n\tC -> D, E -> A", "GSUB4: A B -> C || A -> D", "GSUB3: A -> [C B] ||\n B -> []", "GSUB2: A -> B C # comment\nGSUB1: A -> B;", "GSUB1:\n\tA -> B,\n\tC -> D\n",
 }
 
 var dslOtherForms = []string{
@@ -741,7 +763,7 @@ func areaDsl(c *Ctx) {
 				parts := strings.SplitN(out, ":", 3)
 				c.Stat("parse.outcome", parts[len(parts)-1])
 			}
-		case x < 80: // Explain text (V), Parse∘Explain = id (D) and its model (V)
+		case x < 72: // Explain text (V), Parse∘Explain = id (D) and its model (V)
 			d := genFont(c)
 			if !inDomain(d) {
 				c.Stat("rt.font", "outside domain (names not identifiers / not distinct)")
@@ -761,7 +783,9 @@ func areaDsl(c *Ctx) {
 			} else {
 				c.Stat("rt.outcome", out)
 			}
-		case x < 90: // totality on all forms, mutated (D)
+		case x < 86: // Parse∘Explain on the real code for GSUB 5/6 and GPOS 1–4 (D, seeded)
+			genSeeded(c)
+		case x < 93: // totality on all forms, mutated (D)
 			d := simpleFont
 			t := Pick(r, append(dslSnippets, dslOtherForms...))
 			if r.Chance(3, 4) {
